@@ -40,7 +40,7 @@ INFO = {
                     'the format tables (column positions) are taken as given; the Fortran-style emitter is independent in rendering, '
                     'record structure and section order',
                     'domain: <= 4 variables per in-file INCON entry / INDOM entry, DIFFU only with MULTI, selection integer[0] = number of '
-                    'float lines, distinct keys, ITAB non-blank iff an enthalpy table is given, short output and history requests only with an in-file mesh'],
+                    'float lines, distinct block and connection keys (generators may share block and name: 15% of decks), ITAB non-blank iff an enthalpy table is given, short output and history requests only with an in-file mesh'],
 }
 
 
@@ -244,8 +244,10 @@ def model_of(dat):
             mm.append(['minc', dict((k, trim(v) if isinstance(v, list) else (v.strip() if isinstance(v, str) else num(v))) for k, v in body.items())])
     m['meshmaker'] = mm
     m['generator.keys'] = [[g.block, g.name] for g in dat.generatorlist]
+    occ = {}
     for g in dat.generatorlist:
-        pre = 'generator[%s,%s].' % (g.block, g.name)
+        n = occ[(g.block, g.name)] = occ.get((g.block, g.name), 0) + 1
+        pre = 'generator[%s,%s]%s.' % (g.block, g.name, '' if n == 1 else '#%d' % n)
         for k in ('nseq', 'nadd', 'nads', 'ltab', 'gx', 'ex', 'hg', 'fg'):
             m[pre + k] = num(getattr(g, k))
         m[pre + 'type'] = g.type
@@ -424,8 +426,10 @@ def expected(c, config=None):
                                 'vol': trim(F.rl(body['vol'], '10.4e'))}])
     m['meshmaker'] = mm
     m['generator.keys'] = [[g['block'], g['name']] for g in c['generators']]
+    occ = {}
     for g in c['generators']:
-        pre = 'generator[%s,%s].' % (g['block'], g['name'])
+        n = occ[(g['block'], g['name'])] = occ.get((g['block'], g['name']), 0) + 1
+        pre = 'generator[%s,%s]%s.' % (g['block'], g['name'], '' if n == 1 else '#%d' % n)
         for k in ('nseq', 'nadd', 'nads', 'ltab'):
             m[pre + k] = g[k]
         for k in ('gx', 'ex', 'hg', 'fg'):
@@ -658,6 +662,8 @@ def run_gen(ctx, spec):
             continue
         cycle(ctx, dat, case, exp, 'g', c['config'], c['flavour'] == 'AUTOUGH2', label(c))
         ctx.case(repr(c), nontrivial=nontrivial(c))
+        if c.get('duplicate_generator_keys'):
+            ctx.count('decks_with_generators_sharing_block_and_name')
         if i < 1:
             ctx.samples.append({'flavour': c['flavour'], 'config': c['config'], 'blocks': len(c['blocks']), 'generators': len(c['generators']),
                                 'sections': [k for k in ('rpcap', 'lineq', 'solver', 'multi', 'times', 'selection', 'diffusion', 'short') if c[k]],
